@@ -57,18 +57,19 @@ def build_etype():
     ind = '\n\n  '
     units = _common_units(extra_utils=['prettyIdentifier'])
     units.append(('compat.scala', J.whole_file('hail/hail/utils/src-2.13/is/hail/collection/compat/immutable/package.scala')))
-    units.append(('standins.scala', (JVM / 'etype_standins.scala').read_text()))
     units.append(('irpkg.scala', 'package is.hail.expr\n\nimport scala.collection.BufferedIterator\n\npackage object ir {\n  '
                   + J.slice_text('hail/hail/src/is/hail/expr/ir/package.scala', ['TokenIterator'], within='ir') + '\n}\n'))
     units.append(('IRParser.scala',
                   'package is.hail.expr.ir\n\nimport is.hail.collection.compat.immutable.ArraySeq\nimport is.hail.expr.{Nat, ParserUtils}\n'
                   'import is.hail.types.virtual._\nimport is.hail.utils._\n\nimport scala.reflect.ClassTag\n\nobject IRParser {\n  '
                   + J.slice_text(PARSER, IRPARSER_MEMBERS, within='IRParser', sep=ind) + '\n}\n'))
-    units.append(('EType.scala',
-                  'package is.hail.types.encoded\n\nimport is.hail.collection.compat.immutable.ArraySeq\nimport is.hail.types.virtual._\n'
-                  'import is.hail.utils._\n\n' + J.slice_text('hail/hail/src/is/hail/types/encoded/EBaseStruct.scala', ['EField'])
-                  + '\n\nobject EType {\n  '
-                  + J.slice_text('hail/hail/src/is/hail/types/encoded/EType.scala', ['fromPythonTypeEncoding'], within='EType') + '\n}\n'))
+    # `object EType` must share the scope of the (stand-in) class EType to be its companion: spliced at the marker
+    sliced = (J.slice_text('hail/hail/src/is/hail/types/encoded/EBaseStruct.scala', ['EField']) + '\n\n  object EType {\n  '
+              + J.slice_text('hail/hail/src/is/hail/types/encoded/EType.scala', ['fromPythonTypeEncoding'], within='object EType') + '\n  }\n')
+    standins = (JVM / 'etype_standins.scala').read_text()
+    if standins.count('//@@SLICED_ETYPE@@') != 1:
+        raise J.HarnessError('etype_standins.scala lost its splice marker')
+    units.append(('ETypeAndStandins.scala', standins.replace('//@@SLICED_ETYPE@@', sliced)))
     driver = (JVM / 'engine_side_driver.scala').read_text() + '\n' + (JVM / 'etype_driver.scala').read_text().split('package vfdriver', 1)[1]
     return J.build('etype', '', units, driver)
 
